@@ -777,6 +777,7 @@ pub fn run(sim: &Sim, prop: &str, tier: Tier) -> Outcome {
     let mut i = 0;
     while i < n_ops {
         i += 1;
+        sim.idle_gap();
         // ---- choose the operation
         let op = if pending_reveal {
             pending_reveal = false;
@@ -1894,6 +1895,7 @@ fn run_exchange(sim: &Sim, prop: &str, tier: Tier) -> Outcome {
         Tier::Thorough => 4,
     });
     for _round in 0..n_rounds {
+        sim.idle_gap();
         // the requested kind: one of the library's sixteen, or an application-defined one
         let kind = if sim.chance(12) {
             sim.probe("exchange_application_defined_kind");
@@ -2088,6 +2090,8 @@ fn run_exchange(sim: &Sim, prop: &str, tier: Tier) -> Outcome {
         let (w2, ws2, fw2, sim2) = (waits.clone(), wait_seq.clone(), first_wait_seq.clone(), sim.clone());
         let wait = move || {
             let _g = crate::alloc::SimDomain::enter();
+            // (time passes while the caller waits)
+            sim2.idle_gap();
             let late: Vec<RxItem> = std::mem::take(&mut *arrive_later.borrow_mut());
             sim2.event(EV_OP, 7, late.len() as u64, || format!("wait callback runs ({} more entries arrive on the link meanwhile)", late.len()));
             link_for_wait.borrow_mut().rx.extend(late);
